@@ -202,7 +202,8 @@ def run(chk):
             suffix = 'XX' if xx else ('X' if x else '')
             first = True
             for v in vuls:
-                for d in players:
+                # (a contract without a declarer is constructible and printable too: its text must come back as well)
+                for d in list(players) + [None]:
                     n += 1
                     c = fold_or_error('C15.R5', 'Contract', lambda: f.make('Contract', final_bid=b, x=x, xx=xx, vul=v, declarer=d))
                     t = try_fold('C15.R5', q_cs, lambda: f.str_of(c))
